@@ -972,7 +972,21 @@ pub fn run(case: &Line) -> Outcome {
         let got = Runestone::decipher(&tx);
         let mut obs = L::new();
         w_artifact(&mut obs, &got);
-        let oracle = check_against_spec(&scripts, &got);
+        let mut oracle = check_against_spec(&scripts, &got);
+        // S: a deciphered runestone is one "that ord enciphers": put its encipherment in the
+        // place of the original output and decipher again -> the same runestone
+        if let Some(Artifact::Runestone(r)) = &got {
+          let pos = scripts.iter().position(|s| s.starts_with(&[0x6a, 0x5d])).unwrap();
+          let mut again = scripts.clone();
+          again[pos] = r.encipher().into_bytes();
+          let back = Runestone::decipher(&tx_of(&again));
+          if back != got {
+            oracle = Err(format!("re-enciphering the deciphered {r:?} deciphers to {back:?}"));
+          }
+          if !spec::well_formed(r, scripts.len()) {
+            oracle = Err(format!("deciphered runestone {r:?} is not well-formed for {} outputs", scripts.len()));
+          }
+        }
         let cat = if scripts.is_empty() { "trivial/tx/no-outputs".to_string() } else { format!("tx/{}", flaw_name(&got)) };
         Outcome { obs: obs.done(), oracle, cat }
       })
